@@ -9,7 +9,7 @@ RULE = ("polylines with open and closed subpaths (turning angles 0..180 incl. ex
         "miter limits around the switch point, widths incl. 0, negative and NaN: stroke_to_path's op list is compared bit for "
         "bit with the f32 model; and DrawTarget::stroke (white on transparent, identity / translated / uniformly scaled "
         "transforms) is compared with the region of the statement computed in f64: pixels inside it by more than the margin "
-        "must be 255, pixels outside it by more than the margin 0; non-trivial = stroke with >= 2 segments")
+        "must be 255, pixels outside it by more than the margin 0 (a few 400x400 scenes stroke 120..200 px wide lines that turn by 0.5..8 degrees, where the join wedge is pixels wide); non-trivial = stroke with >= 2 segments")
 
 
 def make_lines(rng, n):
@@ -48,9 +48,22 @@ def pixel_check(ctx):
         scenes.append("scene %d %d %d I %s ; xf %s ; stroke %s %s SRC solid ffffffff 3 %d 1" % (
             i, W, H, " ".join(["00000000"] * (W * H)), scene.xf_tokens(xf), scene.path_tokens(ops, 0), style, FB(1.0)))
         meta.append((ops, width, cap, join, ml, s, tx, ty))
+    # wide strokes with small turning angles: the join wedge is pixels wide far away from the vertex
+    for j in range(4 if ctx.tier == "quick" else 60):
+        Wb = 400
+        ang = math.radians(rng.choice([0.5, 1.0, 2.0, 2.4, 3.0, 5.0, 8.0]) * rng.choice([1, -1]))
+        ops = ["M " + scene.fpt(60.0, 200.0), "L " + scene.fpt(200.0, 200.0),
+               "L " + scene.fpt(200.0 + 140.0 * math.cos(ang), 200.0 + 140.0 * math.sin(ang))]
+        width = rng.choice([200.0, 160.0, 120.0]); cap = "butt"; join = rng.choice(["miter", "round", "bevel"]); ml = 10.0
+        style = "STYLE %d %s %s %d 0 %d" % (FB(width), cap, join, FB(ml), FB(0.0))
+        scenes.append("scene %d %d %d I %s ; xf %s ; stroke %s %s SRC solid ffffffff 3 %d 1" % (
+            n + j, Wb, Wb, " ".join(["00000000"] * (Wb * Wb)), scene.xf_tokens(scene.IDENT), scene.path_tokens(ops, 0), style, FB(1.0)))
+        meta.append((ops, width, cap, join, ml, 1.0, 0.0, 0.0))
     impl, died = build.run_sharded(build.RQV, scenes)
     checked = 0
     for line, sc_line, m in zip(impl, scenes, meta):
+        W = H = int(sc_line.split()[2])
+        stride = 3 if W <= 24 else 7
         parts = scene.split_results(line)[1]
         if len(parts) < 2 or parts[1] in ("panic", "hang"):
             continue
@@ -64,7 +77,7 @@ def pixel_check(ctx):
         margin = 0.5 / s + 0.75 / s      # half a pixel (straight segments) + pixel half-diagonal, in user units
         for y in range(H):
             for x in range(W):
-                if (x * 7 + y * 13 + checked) % 3:
+                if (x * 7 + y * 13 + checked) % stride:
                     continue
                 u = ((x + 0.5 - tx) / s, (y + 0.5 - ty) / s)
                 a = int(px[y * W + x], 16) >> 24
